@@ -9,6 +9,9 @@ import Dashu.Proofs.Text.Pieces
 import Dashu.Proofs.Text.ChunksInv
 import Dashu.Gen.TextDigit
 import Dashu.Proofs.Text.BytesBE
+import Dashu.Proofs.Text.ChunksBuf
+import Dashu.Proofs.Text.ChunksTight
+import Dashu.Gen.TextChunks
 /-
   C07 — Integer text and byte encodings round-trip and match the reference digits.
 
@@ -506,6 +509,64 @@ theorem chunk_spec_guards (n k : Nat) (hk : 1 ≤ k) (cs : List Nat) :
     chunksSpecG n k = chunksSpec n k ∧ ofChunksSpecG k cs = ofChunksSpec k cs :=
   ⟨chunksSpecG_eq n k hk, ofChunksSpecG_eq k cs⟩
 
+/-- **the chunk buffers of `to_chunks` (round 6, fix 80bcfde).**  The `RefLarge` arm allocates for every chunk
+    `word_per_chunk + 1` zero words with `word_per_chunk = ceil_div(chunk_bits, WORD_BITS).min(words.len())`;
+    `toChunksB` runs `words_to_chunks` on buffers of exactly that size, every slice range
+    (`words[start_pos..end_pos]`, `words[start_pos..=end_pos]`, `chunk_out[..n]`, `chunk_out[..=len]`), every `usize`
+    subtraction and the `debug_assert!(start < end)` being an error branch.  For every number, every chunk size
+    `k ≥ 1` and every word size: nothing fails and the chunks are the positional ones; the buffer is at most one word
+    longer than the number whatever `chunk_bits` is (it was `ceil(chunk_bits / W) + 1` before the fix: the repaired
+    allocation panic), and never longer than `ceil(chunk_bits / W) + 1` -/
+theorem to_chunks_buffers_never_overrun (W n k : Nat) (hW : 1 ≤ W) (hk : 1 ≤ k) :
+    toChunksB W n k = .ok (chunksSpec n k) ∧
+    wordPerChunk W k (wordsOf W n).length + 1 ≤ (wordsOf W n).length + 1 ∧
+    wordPerChunk W k (wordsOf W n).length + 1 ≤ ceilDiv k W + 1 ∧
+    toChunksB W n 0 = .error .chunkBitsZero := by
+  have h := wordPerChunk_le W k (wordsOf W n).length
+  exact ⟨toChunksB_eq W n k hW hk, by omega, by omega, rfl⟩
+
+/-- **Tie A (round 6): the chunk-buffer arithmetic is the source text.**  `Dashu.Gen.TextChunks` is regenerated from
+    integer/src/convert.rs on every run (`vlib/extract_textchunks.py`): `word_per_chunk` of the `RefLarge` arm of `to_chunks`
+    (with the clamp `.min(words.len())` of fix 80bcfde), the arguments of `Buffer::allocate` and `push_zeros`, the test,
+    `words_per_chunk`, `start_pos` and `end_pos` of the word-aligned shortcut of `words_to_chunks` (with the clamp of fix
+    49f0136), `math::ceil_div`.  The bounded model `toChunksB` of `to_chunks_buffers_never_overrun` is, on heap values, exactly
+    the program assembled from these texts; dropping the `+ 1`, a clamp, or changing an index breaks this theorem -/
+theorem chunk_buffer_formulas_regenerated (W n k : Nat) (hk : k ≠ 0) (hn : ¬ n < 2 ^ (2 * W)) (words : List Nat) (wpc bufLen i : Nat) :
+    toChunksB W n k =
+      (let words := wordsOf W n
+       let count := Dashu.Gen.TextChunks.ceil_div (bitLen n) k
+       let bufLen := Dashu.Gen.TextChunks.to_chunks_allocate (Dashu.Gen.TextChunks.to_chunks_word_per_chunk W k words.length)
+       if Dashu.Gen.TextChunks.aligned_test W k = 0 then
+         collectChunks (alignedChunkB words (Dashu.Gen.TextChunks.aligned_words_per_chunk W k) bufLen) W (List.range count)
+       else collectChunks (unalignedChunkB W words (bitLen n) k bufLen) W (List.range count)) ∧
+    Dashu.Gen.TextChunks.to_chunks_push_zeros (wordPerChunk W k words.length) =
+      Dashu.Gen.TextChunks.to_chunks_allocate (wordPerChunk W k words.length) ∧
+    alignedChunkB words wpc bufLen i =
+      (let s := Dashu.Gen.TextChunks.aligned_start_pos i wpc
+       let e := Dashu.Gen.TextChunks.aligned_end_pos words.length wpc s
+       if e < s then .error .subOverflow else copyFront bufLen ((words.drop s).take (e - s))) := by
+  refine ⟨?_, rfl, rfl⟩
+  unfold toChunksB
+  rw [if_neg hk]
+  simp only []
+  rw [if_neg hn]
+  rfl
+
+/-- **the result buffer of `from_chunks` counted in words (round 6; proposed fix `c07-from-chunks-result-len-words`).**
+    `Repr::from_chunks` sizes its result buffer `max_len + (len − 1)·chunk_bits + 1` WORDS although
+    `(len − 1)·chunk_bits` is the BIT offset of the last chunk (`fromChunksW`, the code as it is: 64 times too many words,
+    `from_chunks([1, 1], 1 << 28)` zero-fills 2 GiB for a 32 MiB number).  With
+    `result_len = max_len + ceil_div((len − 1)·chunk_bits, WORD_BITS) + 1` (`fromChunksWT`) the unchanged loop
+    `chunks_to_words` still has room for every shifted chunk, `add_in_place` still returns carry zero
+    (`debug_assert_zero!`), and the value is `Σ chunkᵢ·2^(i·k)` — the same as the current code, for all word slices
+    (also oversized chunks), every `k ≥ 1`, every word size -/
+theorem from_chunks_result_len_in_words (W k : Nat) (hW : 1 ≤ W) (hk : 1 ≤ k) (chunks : List (List Nat))
+    (hc : ∀ c ∈ chunks, Dashu.Model.IsWords W c) :
+    fromChunksWT W k chunks = .ok (ofChunksSpec k (chunks.map (Dashu.Model.val W))) ∧
+    fromChunksWT W k chunks = fromChunksW W k chunks := by
+  have h1 := fromChunksWT_eq W k hW hk chunks hc
+  exact ⟨h1, by rw [h1, fromChunksW_eq W k hW hk chunks hc]⟩
+
 /-- `chunk_bits = 0` panics in both directions, as documented -/
 theorem chunks_zero_panics (W n : Nat) (cs : List Nat) :
     toChunks W n 0 = .error .chunkBitsZero ∧ fromChunks 0 cs = .error .chunkBitsZero := by
@@ -583,6 +644,15 @@ example := (chunks_inverse 64 64 (by decide) (by decide)).2 [0, 2 ^ 64 - 1, 0, 7
 example := (chunks_inverse 64 127 (by decide) (by decide)).2 [0, 2 ^ 127 - 1, 0, 7] (by decide) (by decide)
 
 example := chunk_spec_guards (2 ^ 128) (2 ^ 64 - 1) (by decide) [5, 0, 0]
+
+example := chunk_buffer_formulas_regenerated 64 (2 ^ 130 + 5) 65 (by decide) (by decide) [1, 2, 3] 1 2 0
+example := from_chunks_result_len_in_words 64 (2 ^ 28) (by decide) (by decide) [[1], [1]] (by decide)
+example := from_chunks_result_len_in_words 64 65 (by decide) (by decide) [[2 ^ 64 - 1, 2 ^ 64 - 1, 7], [], [1]] (by decide)
+
+-- heap value, chunk_bits = usize::MAX (the repaired panic), a word-aligned and an unaligned size around the clamp
+example := to_chunks_buffers_never_overrun 64 (2 ^ 128) (2 ^ 64 - 1) (by decide) (by decide)
+example := to_chunks_buffers_never_overrun 64 (2 ^ 192 - 1) 192 (by decide) (by decide)
+example := to_chunks_buffers_never_overrun 64 (2 ^ 192 - 1) 129 (by decide) (by decide)
 
 example := ubig_bytes_inverse_canonical 64 (by decide) (by decide) [0, 255, 0, 0, 0, 0, 0, 0, 0, 0, 0, 0, 0, 0, 0, 0, 0, 7] (by decide) (by decide)
 
